@@ -30,7 +30,7 @@ COMPONENTS = {
 }
 ASSUMPTIONS = ['user validators are not used here (their callables may do anything; C11/C12 cover them)',
                'objects are compared after the check by identity of their items in iteration order']
-PROBES = ['oneshot_objects', 'exploding_streams', 'defaultdicts', 'rejections', 'logging_containers', 'cases']
+PROBES = ['oneshot_objects', 'exploding_streams', 'defaultdicts', 'rejections', 'logging_containers', 'cases', 'wrapped_before_culprit']
 
 
 def tiers(tier):
@@ -81,6 +81,9 @@ def generate(rng, run, tier):
     case = _generate(rng, run, tier)
     # the calling convention of the decorated callable (drawn last: the rest of the case is as it was without it)
     case['sig'] = entry.gen_sig(rng)
+    # the object may sit *inside* a rejected object, before the culprit: the explanation of the rejection then walks past it
+    # (tuple[H, int] with (object, 'culprit'); Annotated[H, Is[always false]])
+    case['wrap'] = rng.choice([None, None, None, 'tuple_bad', 'annot_fail', 'dict_value_bad'])
     return case
 
 
@@ -209,6 +212,10 @@ def build(case):
     return x, chk
 
 
+def _never(x):
+    return False
+
+
 def _mut(o):
     m = spies.mutations(o.log)
     if m:
@@ -225,6 +232,16 @@ def execute(case):
     probes = {k: 0 for k in PROBES}
     probes['cases'] = 1
     hint = HINTS[case['hint']](ITEMS[case['item']])
+    wrap = case.get('wrap')
+    if wrap == 'tuple_bad':
+        hint = tuple[hint, int]
+    elif wrap == 'annot_fail':
+        from beartype.vale import Is
+        hint = typing.Annotated[hint, Is[_never]]
+    elif wrap == 'dict_value_bad':
+        hint = dict[str, tuple[hint, int]]
+    if wrap:
+        probes['wrapped_before_culprit'] = 1
     if case['kind'] in ONESHOT_KINDS:
         probes['oneshot_objects'] = 1
     if case['kind'].endswith('Explode'):
@@ -241,6 +258,11 @@ def execute(case):
     for draw in case['draws']:
         for ep in prep.entry_points():
             x, chk = build(case)
+            xin = x
+            if wrap == 'tuple_bad':
+                x = (xin, 'culprit')
+            elif wrap == 'dict_value_bad':
+                x = {'k': (xin, 'culprit')}
             out = prep.eval(ep, x, draw)
             verdict = entry.classify(out, prep.conf)
             if verdict == 'error':
@@ -253,7 +275,7 @@ def execute(case):
             if ep in ('param', 'return') and verdict == 'accept' and out['value_same'] is not True:
                 viol = ('argument_not_identical', '%s: the wrapped callable did not get / return the identical object' % ep, 'identity')
                 break
-            problem = chk(x)
+            problem = chk(xin)
             if problem:
                 viol = ('consumed_or_mutated', '%s (verdict %s, draw %d) on %s under hint %r: %s' % (
                     ep, verdict, draw, case['kind'], hint, problem), 'consumed:' + case['kind'] + ':' + case['hint'])
@@ -275,6 +297,8 @@ def _out(case, probes, viol):
 def shrink(case, violation):
     if case.get('sig', 'pos') != 'pos':
         yield dict(case, sig='pos')
+    if case.get('wrap'):
+        yield dict(case, wrap=None)
     if len(case['draws']) > 1:
         for d in case['draws']:
             yield dict(case, draws=[d])
@@ -304,4 +328,4 @@ SIGNATURES = {'chainmap_over_defaultdict': _sig_chainmap_dd, 'iterator_that_is_a
 
 
 def describe(case):
-    return dict({k: case[k] for k in ('hint', 'item', 'kind', 'content', 'n', 'conf', 'draws')}, sig=case.get('sig', 'pos'))
+    return dict({k: case[k] for k in ('hint', 'item', 'kind', 'content', 'n', 'conf', 'draws')}, sig=case.get('sig', 'pos'), wrap=case.get('wrap'))
